@@ -114,8 +114,9 @@ impl RevocationBitmap {
     // This fix checks if the encoded string it receives as input has undergone such process
     // and undo the inner Base64 encoding before processing the input further.
     let mut data = Cow::Borrowed(data.as_ref());
-    if !data.starts_with("eJy") {
-      // Base64 encoded zlib default compression header
+    if !data.starts_with("eJ") {
+      // Every zlib stream with default compression starts with 0x78 0x9C, i.e. "eJ" followed by one of "wxyz" in
+      // Base64Url, whereas the legacy form starts with the Base64 encoding of that text ("ZUp").
       let decoded = BaseEncoding::decode(&data, Base::Base64)
         .map_err(|e| RevocationError::Base64DecodingError(data.into_owned(), e))?;
       data = Cow::Owned(
